@@ -6,6 +6,8 @@ Three sources of cases, all analysed in memory through the loader's overlay (no 
   the property text; each confirmed to pass the suite and to break the behaviour) -- must be reported;
 * the repository's own repaired defects: every patch in /verif/planned-fixes applied in reverse is the
   pre-fix code and the positive example for rules whose healthy instance count is zero -- must be reported;
+* behaviour-preserving changes under /verif/refactors/*/patch.diff (independent sub-agents asked to refactor without changing
+  behaviour, each confirmed by an equivalence script and the suite) -- must stay silent under every property;
 * a hand-written catalogue (pydlsa/mutants.py) of breaking edits (must be reported, by the named rule) and
   behaviour-preserving rewrites (must stay silent: no violation and no analysis error).
 
@@ -58,6 +60,22 @@ FIXES = [
     ('30-C16-readspec-znum-row.patch', 'C16', 'C16.ROWSEL'),
     ('31-C17-aesthetics-mean-only-zero-ivar.patch', 'C17', 'C17.AESTH'),
     ('32-C02-char_length-empty-table.patch', 'C02', 'C02.CHARLEN'),
+    ('33-C18-angles_to_x-floating-result.patch', 'C18', 'C18.FLOAT-OUT'),
+    ('34-C18-x_to_angles-floating-result.patch', 'C18', 'C18.FLOAT-OUT'),
+    ('35-C17-djs_maskinterp-floating-result.patch', 'C17', 'C17.FLOAT-OUT'),
+    ('36-C17-djs_reject-integer-data.patch', 'C17', 'C17.FLOAT-OUT'),
+    ('37-C13-traceset-floating-coefficients.patch', 'C13', 'C13.FLOAT-OUT'),
+    ('38-C13-traceset-xy-floating-positions.patch', 'C13', 'C13.FLOAT-OUT'),
+    ('39-C19-filter_thru-integer-flux.patch', 'C19', 'C19.FLOAT-OUT'),
+    ('40-C09-cholesky_band-floating-factor.patch', 'C09', 'C09.FLOAT-OUT'),
+    ('41-C09-cholesky_solve-floating-solution.patch', 'C09', 'C09.FLOAT-OUT'),
+    ('42-C06-specobjid-mjd-offset-64-bit.patch', 'C06', 'C06.WIDE'),
+    ('43-C02-char-columns-by-exact-base-type.patch', 'C02', 'C02.CHAR-EXACT'),
+    ('44-C17-djs_reject-inmask-truth-values.patch', 'C17', 'C17.INMASK-TRUTH'),
+    ('45-C16-readspec-topdir-for-files.patch', 'C16', 'C16.PATH-KW'),
+    ('46-C16-readspec-loglam-over-padded-width.patch', 'C16', 'C16.LOGLAM-PAD'),
+    ('47-C12-is_in_polygon-one-cap-rows.patch', 'C12', 'C12.ONE-CAP'),
+    ('48-C02-get_token-blanks-before-closing-brace.patch', 'C02', 'C02.BRACE-TRIM'),
 ]
 
 
@@ -82,6 +100,10 @@ def cases_for(prop, root):
     for fn, p, rule in FIXES:
         if p == prop:
             cases.append({'id': 'prefix/' + fn, 'kind': 'break', 'patch': os.path.join(VERIF, 'planned-fixes', fn), 'reverse': True, 'rules': [rule]})
+    # behaviour-preserving changes written by independent sub-agents (each confirmed equivalent on its own): silent under EVERY property
+    for d in sorted(glob.glob(os.path.join(VERIF, 'refactors', '*'))):
+        if os.path.exists(os.path.join(d, 'patch.diff')):
+            cases.append({'id': 'refactor/' + os.path.basename(d), 'kind': 'keep', 'patch': os.path.join(d, 'patch.diff'), 'reverse': False})
     from . import mutants
     for m in mutants.CATALOGUE:
         if m['prop'] == prop:
